@@ -457,20 +457,56 @@ def summaryGo : List Rec → Option Bool → Summary
 
 def summary (rs : List Rec) : Summary := summaryGo rs none
 
-/-- the records the summary is taken over: the answers, or (negative answer) the authority records other
-than the SOA -/
-def summarised (m : Msg) : List Rec := if !m.an.isEmpty then m.an else m.ns.filter (·.rtype != tSOA)
+/-- `Name::zone_of` on lower-case names: `z` is a suffix of `n` -/
+def zoneOf (z n : DName) : Bool := z.length ≤ n.length && n.drop (n.length - z.length) == z
 
-/-- response code and AD bit of the forwarded response for a client with DO set and the given CD bit;
-`none` for the rcode means "the upstream's rcode is passed through" (Insecure NSEC error) -/
-def serverView (cd : Bool) : Res → Option Nat × Bool
+/-- `DnsResponse::contains_answer` -/
+def containsAnswer (q : Query) (m : Msg) : Bool :=
+  if q.qtype == 255 then m.all.any (·.name == q.name)
+  else if q.qtype == tSOA then m.all.any fun r => r.rtype == tSOA && zoneOf r.name q.name
+  else !m.an.isEmpty || m.all.any fun r => r.rtype == q.qtype && r.name == q.name
+
+/-- response codes `DnsError::from_response` turns into `Err(ResponseCode(_))` -/
+def isErrorRcode (c : Nat) : Bool := [1, 2, 4, 5, 6, 7, 8, 9, 10, 16, 17, 18, 19, 20, 21, 22, 23].contains c
+
+/-- what the forwarder's resolver hands to the server: `DnsError::from_response` on the validated message -/
+inductive Fwd where
+  /-- `Ok(AuthLookup::Resolved(lookup))` -/
+  | answers (m : Msg)
+  /-- `Err(NoRecordsFound { response_code, soa, authorities, .. })` -/
+  | noRecords (m : Msg)
+  /-- any other error -/
+  | error
+  deriving Repr, DecidableEq
+
+def forwarded (q : Query) : Res → Fwd
   | .ok m =>
-    match summary (summarised m) with
-    | .secure => (some m.rcode, true)
-    | .bogus => if cd then (some m.rcode, false) else (some 2, false)
-    | .insecure => (some m.rcode, false)
-  | .errNsec .insecure => (none, false)
-  | _ => (some 2, false)
+    if isErrorRcode m.rcode then .error
+    else if (m.rcode == 0 || m.rcode == 3) && !containsAnswer q m then .noRecords m
+    else .answers m
+  | _ => .error
+
+/-- the records the summary is taken over: the answers, or — for a negative answer that has a SOA — the
+authority records other than the SOA (the SOA itself is not looked at); without a SOA, nothing -/
+def summarised (q : Query) (r : Res) : List Rec :=
+  match forwarded q r with
+  | .answers m => m.an
+  | .noRecords m => if m.ns.any (·.rtype == tSOA) then m.ns.filter (·.rtype != tSOA) else []
+  | .error => []
+
+/-- response code and AD bit of the forwarded response (`build_forwarded_response`) for a client with RD and
+DO set and the given CD bit, behind a validating forwarder -/
+def serverView (cd : Bool) (q : Query) (r : Res) : Nat × Bool :=
+  match forwarded q r with
+  | .error => (2, false)
+  | f =>
+    let rc : Nat := match f with
+      | .noRecords m => if m.rcode == 3 && !(m.ns.any (·.name == q.name)) then 3 else 0
+      | _ => 0
+    match summary (summarised q r) with
+    | .secure => (rc, true)
+    | .bogus => if cd then (rc, false) else (2, false)
+    | .insecure => (rc, false)
 
 /-! ## an upstream given by a finite trace (what the driver replays) -/
 
@@ -514,5 +550,15 @@ def anchorKeyForeignOwner (env : Env) (trace : List (Query × UpOut)) : Bool :=
     match e.2 with
     | .ok m | .noRecords m => m.all.any fun r => r.rtype == tDNSKEY && env.anchor r.rid && !r.name.isRoot
     | _ => false
+
+/-- `C07.AdIgnoresSoaProof` (on the validated message): a negative answer in which every authority record
+that is not Secure is a SOA record, and there is such a SOA -/
+def soaOnlyNotSecure (m : Msg) : Bool :=
+  m.an.isEmpty && m.ns.any (fun r => r.rtype == tSOA && r.proof != .secure) &&
+    m.ns.all fun r => r.proof == .secure || r.rtype == tSOA
+
+/-- `C07.BogusNegativeWithoutSoaForwarded`: a negative answer without a SOA that carries a Bogus record -/
+def bogusNegativeWithoutSoa (m : Msg) : Bool :=
+  m.an.isEmpty && !(m.ns.any (·.rtype == tSOA)) && m.ns.any (·.proof == .bogus)
 
 end HickoryVerif.Chain
